@@ -3,6 +3,27 @@ From Coq Require Import Sorted.
 From BV Require Import lib.Ints model.AddrMan proofs.AddrManMaps proofs.AddrManInv proofs.AddrManOps.
 Local Open Scope Z_scope.
 
+(* std::set operations on strictly increasing lists *)
+Lemma set_insert_In x y l : In y (set_insert x l) <-> y = x \/ In y l.
+Proof. induction l as [|z r IH]; simpl; [intuition|]. destruct (x <? z) eqn:E1; [simpl; intuition|].
+  destruct (x =? z) eqn:E2; [apply Z.eqb_eq in E2; subst; simpl; intuition|]. simpl. rewrite IH. intuition. Qed.
+Lemma set_insert_sorted x l : StronglySorted Z.lt l -> StronglySorted Z.lt (set_insert x l).
+Proof. induction l as [|z r IH]; simpl; intros H; [repeat constructor|].
+  apply StronglySorted_inv in H. destruct H as [H1 H2].
+  destruct (x <? z) eqn:E1.
+  - apply Z.ltb_lt in E1. constructor; [constructor; auto|]. constructor; auto. rewrite Forall_forall in *. intros y I. specialize (H2 y I). lia.
+  - destruct (x =? z) eqn:E2; [constructor; auto|]. apply Z.ltb_ge in E1. apply Z.eqb_neq in E2.
+    constructor; auto. rewrite Forall_forall in *. intros y I. apply set_insert_In in I. destruct I as [->|I]; [lia | auto]. Qed.
+Lemma set_insert_len x l : zlen (set_insert x l) <= zlen l + 1.
+Proof. induction l as [|z r IH]; unfold zlen in *; simpl; [lia|]. destruct (x <? z); [simpl; lia|]. destruct (x =? z); simpl; lia. Qed.
+Lemma set_remove_In x y l : In y (set_remove x l) -> In y l.
+Proof. induction l as [|z r IH]; simpl; auto. destruct (x =? z); simpl; intuition. Qed.
+Lemma set_remove_sorted x l : StronglySorted Z.lt l -> StronglySorted Z.lt (set_remove x l).
+Proof. induction l as [|z r IH]; simpl; intros H; [constructor|]. apply StronglySorted_inv in H. destruct H as [H1 H2].
+  destruct (x =? z); auto. constructor; auto. rewrite Forall_forall in *. intros y I. apply H2. eapply set_remove_In; eauto. Qed.
+Lemma set_remove_len x l : zlen (set_remove x l) <= zlen l.
+Proof. induction l as [|z r IH]; unfold zlen in *; simpl; [lia|]. destruct (x =? z); simpl; lia. Qed.
+
 Section Steps.
   Variable c : cfg.
   Variable tried_bucket : Z -> Z.
@@ -16,6 +37,7 @@ Section Steps.
   Hypothesis H_NB : 0 < c_NB c.
   Hypothesis H_MAXREF : 1 <= c_MAXREF c.
   Hypothesis H_nb : forall k s, 0 <= new_bucket k s < c_NB c.
+  Set Default Proof Using "All".
 
   Notation tslot := (tslot tried_bucket bucket_pos).
   Notation nslot := (nslot new_bucket bucket_pos).
@@ -25,6 +47,8 @@ Section Steps.
   Notation Inv := (Inv c tried_bucket bucket_pos routable network).
   Notation info_ok := (info_ok routable).
 
+  Notation OPS l := (l c tried_bucket new_bucket bucket_pos routable network H_NB H_MAXREF H_nb) (only parsing).
+
   (* ---------- AddSingle ---------- *)
   Lemma add_insert_ok s1 id p X1 b :
     GInv [] X1 s1 -> s_idcount s1 <= IDLIM -> zfind id (s_info s1) = Some p -> a_tried p = false -> a_ref p + 1 <= c_MAXREF c ->
@@ -32,12 +56,390 @@ Section Steps.
     exists s', add_insert network s1 id (b, bucket_pos true b (a_key p)) = Ok (s', true) /\ Inv s' /\ s_idcount s' = s_idcount s1.
   Proof.
     intros G LIM F NT MX RB NS HX1. set (us := (b, bucket_pos true b (a_key p))) in *. unfold add_insert.
-    destruct (clear_new_ok c tried_bucket new_bucket bucket_pos routable network H_NB H_MAXREF H_nb [] X1 s1 us G LIM) as (s2 & CN & G2 & FS & FO & FI & FN & e1 & e2 & e3 & e4 & e5 & OCC).
+    destruct (OPS clear_new_ok [] X1 s1 us G LIM) as (s2 & CN & G2 & FS & FO & FI & FN & e1 & e2 & e3 & e4 & e5 & OCC).
     { intros j _ []. }
     rewrite CN. cbn [bind]. destruct (FI _ _ F NS) as (r & F2). rewrite F2.
-    pose proof (new_insert_ok c tried_bucket new_bucket bucket_pos routable network [] X1 s2 b id (set_rpos r p) G2 F2 NT RB) as NI.
+    pose proof (OPS new_insert_ok [] X1 s2 b id (set_rpos r p) G2 F2 NT RB) as NI.
     cbn [a_key a_ref set_rpos] in NI. fold us in NI. specialize (NI FS MX []).
     eexists. split; [reflexivity|]. split; [|simpl; auto].
     apply NI. intros x I. left. auto.
+  Qed.
+
+  Lemma add_place_ok s1 id p k src now X1 :
+    GInv [] X1 s1 -> s_idcount s1 <= IDLIM -> zfind id (s_info s1) = Some p -> a_key p = k -> a_tried p = false ->
+    a_ref p + 1 <= c_MAXREF c -> (X1 = [] \/ (X1 = [id] /\ a_ref p = 0)) ->
+    exists s' b, add_place c new_bucket bucket_pos network s1 id k src now = Ok (s', b) /\ Inv s' /\ s_idcount s' = s_idcount s1.
+  Proof.
+    intros G LIM F K NT MX HX1. pose proof G as (HA & HR & HC & HX). unfold add_place. rewrite F.
+    assert (XID : forall x, In x X1 -> x = id) by (destruct HX1 as [->|[-> _]]; simpl; intros x []; auto; tauto).
+    assert (RB : 0 <= new_bucket k src < c_NB c) by apply H_nb.
+    assert (US : nslot k src = (new_bucket k src, bucket_pos true (new_bucket k src) (a_key p))) by (rewrite K; reflexivity).
+    destruct (sfind (nslot k src) (s_new s1)) as [cur|] eqn:FS.
+    - zeq cur id.
+      + subst cur. exists s1, false. split; [reflexivity|]. split; [|reflexivity].
+        destruct HX1 as [->|[-> R0]]; [exact G|]. exfalso. apply find_refs_pos in FS. destruct (S_ref _ _ _ _ _ HA _ _ F). lia.
+      + assert (exists ex, zfind cur (s_info s1) = Some ex) as (ex & FE).
+        { destruct (nslot k src) as [b0 p0]. destruct (S_new _ _ _ _ _ HA _ _ _ FS) as (a0 & A0 & _). eauto. }
+        rewrite FE. destruct (is_terrible c now ex || (a_ref ex >? 1) && (a_ref p =? 0)).
+        * rewrite US in *. destruct (add_insert_ok s1 id p X1 (new_bucket k src) G LIM F NT MX RB) as (s' & AI & I' & e); auto.
+          { rewrite FS. congruence. }
+          exists s', true. auto.
+        * zeq (a_ref p) 0.
+          -- destruct (OPS delete_ok [] X1 s1 id p G LIM F NT E0) as (s' & D & GD & _ & _ & _ & e1 & _); [intros []|].
+             rewrite D. cbn [bind]. exists s', false. split; [reflexivity|]. split; [|auto].
+             apply GD. intros x I. left. auto.
+          -- exists s1, false. split; [reflexivity|]. split; [|reflexivity].
+             destruct HX1 as [->|[-> R0]]; [exact G | contradiction].
+    - rewrite US in *. destruct (add_insert_ok s1 id p X1 (new_bucket k src) G LIM F NT MX RB) as (s' & AI & I' & e); auto.
+      { rewrite FS. discriminate. }
+      exists s', true. auto.
+  Qed.
+
+  Definition add_args_ok (time penalty : Z) : Prop := 0 <= time < 4294967296 /\ 0 <= penalty.
+
+  Lemma add_single_ok s k time services src penalty now draw :
+    Inv s -> s_idcount s < IDLIM -> add_args_ok time penalty ->
+    exists s' b, add_single c new_bucket bucket_pos routable network addr_of s k time services src penalty now draw = Ok (s', b) /\ Inv s' /\
+                 s_idcount s <= s_idcount s' <= s_idcount s + 1.
+  Proof.
+    intros G LIM (TM & PN). pose proof G as (HA & HR & HC & HX). unfold add_single.
+    destruct (routable k) eqn:RT; cbn [negb]; [|exists s, false; split; [reflexivity|]; split; [auto | lia]].
+    set (pen := if addr_of k =? src then 0 else penalty).
+    assert (PN' : 0 <= pen) by (unfold pen; destruct (addr_of k =? src); lia).
+    assert (TM' : 0 <= Z.max 0 (time - pen) < 4294967296) by lia.
+    destruct (find_addr s k) as [[id a]|] eqn:FA.
+    - destruct (find_addr_some c tried_bucket bucket_pos routable s k id a HA FA) as (F & K).
+      set (a1 := if a_time a <? time - (if now - time <? 86400 then 3600 else 86400) - pen then set_time (Z.max 0 (time - pen)) a else a).
+      set (a2 := set_services (Z.lor (a_services a1) services) a1).
+      assert (CORE : a_key a2 = a_key a /\ a_tried a2 = a_tried a /\ a_ref a2 = a_ref a /\ a_rpos a2 = a_rpos a).
+      { unfold a2, a1. destruct (a_time a <? _); simpl; auto. }
+      destruct CORE as (K2 & T2 & R2 & PP2).
+      assert (OK2 : info_ok a2).
+      { destruct (S_stats _ _ _ _ _ HA _ _ F) as (Q1 & Q2 & Q3 & Q4 & Q5). unfold a2, a1, AddrManInv.info_ok.
+        destruct (a_time a <? _); simpl; repeat split; auto; lia. }
+      pose proof (OPS G_upd [] [] s id a a2 F K2 T2 R2 PP2 OK2 G) as G1.
+      set (s1 := set_info (zset id a2 (s_info s)) s) in *.
+      assert (e1 : s_idcount s1 = s_idcount s) by reflexivity.
+      destruct (time <=? a_time a2); [exists s1, false; split; [reflexivity|]; split; [auto | lia]|].
+      destruct (a_tried a2) eqn:T2'; [exists s1, false; split; [reflexivity|]; split; [auto | lia]|].
+      zeq (a_ref a2) (c_MAXREF c); [exists s1, false; split; [reflexivity|]; split; [auto | lia]|].
+      destruct ((a_ref a2 >? 0) && negb (draw =? 0)); [exists s1, false; split; [reflexivity|]; split; [auto | lia]|].
+      assert (F1 : zfind id (s_info s1) = Some a2) by (unfold s1; simpl; rewrite zfind_zset, Z.eqb_refl; auto).
+      assert (P1 : s_idcount s1 <= IDLIM) by lia.
+      assert (P2 : a_key a2 = k) by congruence.
+      assert (P3 : a_ref a2 + 1 <= c_MAXREF c) by (destruct G1 as (A1 & _); destruct (S_ref _ _ _ _ _ A1 _ _ F1); lia).
+      destruct (add_place_ok s1 id a2 k src now [] G1 P1 F1 P2 T2' P3 (or_introl eq_refl)) as (s' & b & AP & I' & e).
+      exists s', b. split; [exact AP|]. split; [auto | lia].
+    - destruct (create network s k src (Z.max 0 (time - pen)) services) as [s1 id] eqn:CR.
+      destruct (OPS create_ok [] s k src (Z.max 0 (time - pen)) services s1 id G LIM) as (EID & G1 & F1 & FO & e1 & e2 & e3 & e4 & e5); auto.
+      { intros id0 a0 F0. eapply find_addr_none; eauto. }
+      assert (P1 : s_idcount s1 <= IDLIM) by lia.
+      assert (P3 : 0 + 1 <= c_MAXREF c) by lia.
+      destruct (add_place_ok s1 id _ k src now [id] G1 P1 F1 eq_refl eq_refl P3 (or_intror (conj eq_refl eq_refl))) as (s' & b & AP & I' & e).
+      exists s', b. split; [exact AP|]. split; [auto | lia].
+  Qed.
+
+  (* ---------- frames for the fields the invariant does not read / reads alone ---------- *)
+  Lemma G_last_good L X s t : GInv L X s -> GInv L X (set_last_good t s).
+  Proof. intros (A & B & C & D). split; [|split; [|split]].
+    - eapply (OPS SA_frame); [| | | | | | exact A]; reflexivity.
+    - eapply (OPS SR_frame); [| | exact B]; reflexivity.
+    - eapply (OPS Cnt_frame); [| | | | exact C]; reflexivity.
+    - eapply (OPS R_frame); [| exact D]; reflexivity.
+  Qed.
+  Lemma G_coll L X s l : GInv L X s -> coll_ok c l -> GInv L X (set_coll l s).
+  Proof. intros (A & B & C & D) OK. split; [|split; [|split]].
+    - destruct A. constructor; auto.
+    - eapply (OPS SR_frame); [| | exact B]; reflexivity.
+    - eapply (OPS Cnt_frame); [| | | | exact C]; reflexivity.
+    - eapply (OPS R_frame); [| exact D]; reflexivity.
+  Qed.
+
+  (* entries of s and s' agree on everything but the memory-only position in vRandom *)
+  Definition same_entries (s s' : st) : Prop :=
+    forall id0, match zfind id0 (s_info s), zfind id0 (s_info s') with
+                | Some a0, Some a0' => same_stats a0 a0' /\ a_tried a0' = a_tried a0 /\ a_ref a0' = a_ref a0
+                | None, None => True
+                | _, _ => False
+                end.
+
+  (* ---------- Good_ ---------- *)
+  Lemma good_ok s k tbe time :
+    Inv s -> s_idcount s <= IDLIM -> 0 < time ->
+    exists s' b, good c tried_bucket new_bucket bucket_pos network s k tbe time = Ok (s', b) /\ Inv s' /\ s_idcount s' = s_idcount s /\
+      s_last_good s' = time /\ (tbe = false -> s_coll s' = s_coll s) /\
+      match find_addr s k with
+      | None => b = false /\ s' = set_last_good time s
+      | Some (id, a) =>
+        let a1 := set_attempts 0 (set_last_try time (set_last_success time a)) in
+        if b then
+          a_tried a = false /\
+          (exists r, zfind id (s_info s') = Some (set_rpos r (set_tried true (set_ref 0 a1)))) /\
+          sfind (tslot k) (s_tried s') = Some id /\
+          (forall sl, sl <> tslot k -> sfind sl (s_tried s') = sfind sl (s_tried s)) /\
+          (forall id0 a0, id0 <> id -> zfind id0 (s_info s) = Some a0 ->
+             (exists a0', zfind id0 (s_info s') = Some a0' /\ same_stats a0 a0' /\
+                          (sfind (tslot k) (s_tried s) <> Some id0 -> a_tried a0' = a_tried a0 /\ a_ref a0' <= a_ref a0) /\
+                          (sfind (tslot k) (s_tried s) = Some id0 -> a_tried a0' = false /\ a_ref a0' = 1))
+             \/ (zfind id0 (s_info s') = None /\ a_tried a0 = false /\
+                 exists idev old, sfind (tslot k) (s_tried s) = Some idev /\ zfind idev (s_info s) = Some old /\
+                                  sfind (nslot (a_key old) (a_src old)) (s_new s) = Some id0)) /\
+          (forall id0, zfind id0 (s_info s) = None -> zfind id0 (s_info s') = None)
+        else
+          s_info s' = zset id a1 (s_info s) /\ s_new s' = s_new s /\ s_tried s' = s_tried s /\
+          (a_tried a = true \/ (tbe = true /\ exists o, sfind (tslot k) (s_tried s) = Some o))
+      end.
+  Proof.
+    intros G LIM TP. unfold good.
+    pose proof (G_last_good [] [] s time G) as G0. set (s0 := set_last_good time s) in *.
+    assert (FA0 : find_addr s0 k = find_addr s k) by reflexivity. rewrite FA0.
+    destruct (find_addr s k) as [[id a]|] eqn:FA.
+    2:{ exists s0, false. split; [reflexivity|]. split; [auto|]. split; [reflexivity|]. split; [reflexivity|]. split; [reflexivity|]. auto. }
+    pose proof G0 as (HA & HR & HC & HX).
+    destruct (find_addr_some c tried_bucket bucket_pos routable s0 k id a HA FA0) as (F & K).
+    set (a1 := set_attempts 0 (set_last_try time (set_last_success time a))).
+    assert (OK1 : info_ok a1).
+    { destruct (S_stats _ _ _ _ _ HA _ _ F) as (Q1 & Q2 & Q3 & Q4 & Q5). unfold a1, AddrManInv.info_ok. simpl. repeat split; auto; lia. }
+    pose proof (OPS G_upd [] [] s0 id a a1 F eq_refl eq_refl eq_refl eq_refl OK1 G0) as G1.
+    set (s1 := set_info (zset id a1 (s_info s0)) s0) in *.
+    assert (F1 : zfind id (s_info s1) = Some a1) by (unfold s1; simpl; rewrite zfind_zset, Z.eqb_refl; auto).
+    change (a_tried a1) with (a_tried a). change (a_ref a1) with (a_ref a). change (a_key a1) with (a_key a). rewrite K.
+    destruct (a_tried a) eqn:T.
+    { exists s1, false. split; [reflexivity|]. split; [auto|]. split; [reflexivity|]. split; [reflexivity|]. split; [reflexivity|]. simpl. auto 10. }
+    assert (RP : 1 <= a_ref a) by (apply (HX id a F T); intros []).
+    replace (a_ref a >? 0) with true by (symmetry; apply Z.gtb_lt; lia). cbn [negb].
+    assert (MT : exists s' , make_tried c tried_bucket new_bucket bucket_pos network s1 id = Ok s' /\ Inv s' /\ s_idcount s' = s_idcount s /\ s_last_good s' = time /\
+               (tbe = false -> s_coll s' = s_coll s) /\ a_tried a = false /\
+               (exists r, zfind id (s_info s') = Some (set_rpos r (set_tried true (set_ref 0 a1)))) /\
+               sfind (tslot k) (s_tried s') = Some id /\
+               (forall sl, sl <> tslot k -> sfind sl (s_tried s') = sfind sl (s_tried s)) /\
+               (forall id0 a0, id0 <> id -> zfind id0 (s_info s) = Some a0 ->
+                  (exists a0', zfind id0 (s_info s') = Some a0' /\ same_stats a0 a0' /\
+                               (sfind (tslot k) (s_tried s) <> Some id0 -> a_tried a0' = a_tried a0 /\ a_ref a0' <= a_ref a0) /\
+                               (sfind (tslot k) (s_tried s) = Some id0 -> a_tried a0' = false /\ a_ref a0' = 1))
+                  \/ (zfind id0 (s_info s') = None /\ a_tried a0 = false /\
+                      exists idev old, sfind (tslot k) (s_tried s) = Some idev /\ zfind idev (s_info s) = Some old /\
+                                       sfind (nslot (a_key old) (a_src old)) (s_new s) = Some id0)) /\
+               (forall id0, zfind id0 (s_info s) = None -> zfind id0 (s_info s') = None)).
+    { destruct (OPS make_tried_ok s1 id a1 G1 LIM F1 T) as (s' & M & I' & FI & FT & TO & OTH & FN & e1 & e2 & e3).
+      { simpl. lia. }
+      change (a_key a1) with (a_key a) in *. rewrite K in *.
+      exists s'. split; [exact M|]. split; [auto|]. split; [rewrite e1; reflexivity|]. split; [rewrite e3; reflexivity|].
+      split; [intros _; rewrite e2; reflexivity|]. split; [auto|]. split; [auto|]. split; [auto|]. split; [exact TO|]. split.
+      - intros id0 a0 N0 F0. assert (F01 : zfind id0 (s_info s1) = Some a0) by (unfold s1; simpl; rewrite zfind_zset, (proj2 (Z.eqb_neq id id0)) by auto; auto).
+        destruct (OTH id0 a0 N0 F01) as [Q|(Q1 & Q2 & idev & old & Q3 & Q4 & Q5)]; [left; exact Q|].
+        right. split; [auto|]. split; [auto|]. exists idev.
+        assert (NEI : idev <> id).
+        { intros E. subst idev. destruct G1 as (A1 & _). destruct (S_tried1 _ _ _ _ _ A1 _ _ Q3) as (x & X1 & X2 & _). rewrite F1 in X1. injection X1 as <-. simpl in X2. congruence. }
+        unfold s1 in Q4; simpl in Q4. rewrite zfind_zset, (proj2 (Z.eqb_neq id idev)) in Q4 by auto. exists old. auto.
+      - intros id0 F0. apply FN. unfold s1; simpl. rewrite zfind_zset. destruct (id =? id0) eqn:E; [apply Z.eqb_eq in E; subst; simpl in F; congruence | auto]. }
+    change (s_tried s1) with (s_tried s). change (s_coll s1) with (s_coll s).
+    destruct (sfind (tslot k) (s_tried s)) as [o|] eqn:FT.
+    - destruct tbe.
+      + eexists _, false. split; [reflexivity|]. split; [|split; [|split; [|split; [discriminate | simpl; eauto 10]]]].
+        * destruct (zlen (s_coll s) <? c_COLL c) eqn:LC; [|exact G1]. apply Z.ltb_lt in LC.
+          apply G_coll; auto. destruct G1 as (A1 & _). destruct (S_coll _ _ _ _ _ A1) as [Q1 Q2]. simpl in Q1, Q2.
+          split; [apply set_insert_sorted; auto|]. pose proof (set_insert_len id (s_coll s)). lia.
+        * destruct (zlen (s_coll s) <? c_COLL c); reflexivity.
+        * destruct (zlen (s_coll s) <? c_COLL c); reflexivity.
+        * destruct (zlen (s_coll s) <? c_COLL c); simpl; eauto 10.
+      + destruct MT as (s' & M & Q). rewrite M. cbn [bind]. exists s', true. split; [reflexivity|]. tauto.
+    - destruct MT as (s' & M & Q). rewrite M. cbn [bind]. exists s', true. split; [reflexivity|]. tauto.
+  Qed.
+
+  (* ---------- Attempt_, Connected_, SetServices_ ---------- *)
+  Lemma attempt_ok s k cf time : Inv s -> 0 <= time -> Inv (attempt s k cf time) /\ s_idcount (attempt s k cf time) = s_idcount s.
+  Proof.
+    intros G TP. unfold attempt. destruct (find_addr s k) as [[id a]|] eqn:FA; [|auto].
+    pose proof G as (HA & _). destruct (find_addr_some c tried_bucket bucket_pos routable s k id a HA FA) as (F & K).
+    split; [|reflexivity]. apply (OPS G_upd [] [] s id a); auto;
+      try (destruct (cf && (a_last_count (set_last_try time a) <? s_last_good s)); reflexivity).
+    destruct (S_stats _ _ _ _ _ HA _ _ F) as (Q1 & Q2 & Q3 & Q4 & Q5).
+    destruct (cf && (a_last_count (set_last_try time a) <? s_last_good s)); unfold AddrManInv.info_ok; simpl; repeat split; auto; lia.
+  Qed.
+  Lemma connected_ok s k time : Inv s -> 0 <= time < 4294967296 -> Inv (connected s k time) /\ s_idcount (connected s k time) = s_idcount s.
+  Proof.
+    intros G TP. unfold connected. destruct (find_addr s k) as [[id a]|] eqn:FA; [|auto].
+    pose proof G as (HA & _). destruct (find_addr_some c tried_bucket bucket_pos routable s k id a HA FA) as (F & K).
+    destruct (time - a_time a >? 1200); [|auto]. split; [|reflexivity]. apply (OPS G_upd [] [] s id a); auto.
+    destruct (S_stats _ _ _ _ _ HA _ _ F) as (Q1 & Q2 & Q3 & Q4 & Q5). unfold AddrManInv.info_ok; simpl; repeat split; auto; lia.
+  Qed.
+  Lemma set_services_ok s k sv : Inv s -> Inv (set_services_op s k sv) /\ s_idcount (set_services_op s k sv) = s_idcount s.
+  Proof.
+    intros G. unfold set_services_op. destruct (find_addr s k) as [[id a]|] eqn:FA; [|auto].
+    pose proof G as (HA & _). destruct (find_addr_some c tried_bucket bucket_pos routable s k id a HA FA) as (F & K).
+    split; [|reflexivity]. apply (OPS G_upd [] [] s id a); auto. apply (S_stats _ _ _ _ _ HA _ _ F).
+  Qed.
+
+  (* ---------- frames used for the pending-collision invariant ---------- *)
+  Definition occ_mono (s s' : st) : Prop := forall sl o, sfind sl (s_tried s) = Some o -> exists o', sfind sl (s_tried s') = Some o'.
+  Definition kback (s s' : st) : Prop :=
+    forall id0 a', zfind id0 (s_info s') = Some a' -> exists a0, zfind id0 (s_info s) = Some a0 /\ a_key a0 = a_key a'.
+  (* a pending collision whose entry still exists points at an occupied tried slot *)
+  Definition CollInv (s : st) : Prop :=
+    forall id a, In id (s_coll s) -> zfind id (s_info s) = Some a -> exists o, sfind (tslot (a_key a)) (s_tried s) = Some o.
+
+  Lemma occ_mono_refl s : occ_mono s s. Proof. intros sl o H. eauto. Qed.
+  Lemma kback_refl s : kback s s. Proof. intros id a H. eauto. Qed.
+  Lemma occ_mono_trans a b d : occ_mono a b -> occ_mono b d -> occ_mono a d.
+  Proof. intros H1 H2 sl o Q. destruct (H1 _ _ Q) as (o' & Q'). eauto. Qed.
+  Lemma kback_trans a b d : kback a b -> kback b d -> kback a d.
+  Proof. intros H1 H2 id x Q. destruct (H2 _ _ Q) as (y & Q1 & Q2). destruct (H1 _ _ Q1) as (z & Q3 & Q4). exists z. split; auto. congruence. Qed.
+
+  Lemma good_frames s k tbe time s' b :
+    Inv s -> s_idcount s <= IDLIM -> 0 < time ->
+    good c tried_bucket new_bucket bucket_pos network s k tbe time = Ok (s', b) -> occ_mono s s' /\ kback s s'.
+  Proof.
+    intros G LIM TP GD. destruct (good_ok s k tbe time G LIM TP) as (s'' & b'' & GD' & I' & e1 & e2 & e3 & EFF).
+    rewrite GD in GD'. injection GD' as <- <-.
+    destruct (find_addr s k) as [[id a]|] eqn:FA.
+    - pose proof G as (HA & _). destruct (find_addr_some c tried_bucket bucket_pos routable s k id a HA FA) as (F & K).
+      destruct b.
+      + destruct EFF as (NT & (r & FI) & FT & TO & OTH & FN). split.
+        * intros sl o Q. destruct (sloteqb (tslot k) sl) eqn:E; [apply sloteqb_true in E; subst sl; eauto|].
+          rewrite TO; [eauto|]. intros E2. subst sl. rewrite sloteqb_refl in E. discriminate.
+        * intros id0 a' Q. destruct (zfind id0 (s_info s)) as [a0|] eqn:F0; [|rewrite (FN _ F0) in Q; discriminate].
+          exists a0. split; auto. destruct (id =? id0) eqn:E; [apply Z.eqb_eq in E; subst id0|apply Z.eqb_neq in E].
+          -- rewrite FI in Q. injection Q as <-. rewrite F in F0. injection F0 as <-. reflexivity.
+          -- destruct (OTH id0 a0 (not_eq_sym E) F0) as [(a0' & Q1 & Q2 & _)|(Q1 & _)]; [|congruence].
+             rewrite Q in Q1. injection Q1 as <-. destruct Q2 as (Q2 & _). auto.
+      + destruct EFF as (EI & EN & ET & _). split.
+        * intros sl o Q. rewrite ET. eauto.
+        * intros id0 a' Q. rewrite EI, zfind_zset in Q. destruct (id =? id0) eqn:E; [apply Z.eqb_eq in E; subst id0|eauto].
+          injection Q as <-. exists a. auto.
+    - destruct EFF as (-> & ->). split; [intros sl o Q; simpl; eauto | intros id0 a' Q; simpl in Q; eauto].
+  Qed.
+
+  (* ---------- ResolveCollisions_ ---------- *)
+  Lemma resolve_one_ok s idn now :
+    Inv s -> s_idcount s <= IDLIM -> 0 < now ->
+    (forall a, zfind idn (s_info s) = Some a -> exists o, sfind (tslot (a_key a)) (s_tried s) = Some o) ->
+    exists s' e, resolve_one c tried_bucket new_bucket bucket_pos valid network s idn now = Ok (s', e) /\ Inv s' /\
+      s_idcount s' = s_idcount s /\ s_coll s' = s_coll s /\ occ_mono s s' /\ kback s s'.
+  Proof.
+    intros G LIM TP CI. unfold resolve_one.
+    assert (SAME : exists s' e, Ok (s, true) = Ok (s', e) /\ Inv s' /\ s_idcount s' = s_idcount s /\ s_coll s' = s_coll s /\ occ_mono s s' /\ kback s s').
+    { exists s, true. split; [reflexivity|]. split; [auto|]. split; [auto|]. split; [auto|]. split; [apply occ_mono_refl | apply kback_refl]. }
+    assert (SAMEF : exists s' e, Ok (s, false) = Ok (s', e) /\ Inv s' /\ s_idcount s' = s_idcount s /\ s_coll s' = s_coll s /\ occ_mono s s' /\ kback s s').
+    { exists s, false. split; [reflexivity|]. split; [auto|]. split; [auto|]. split; [auto|]. split; [apply occ_mono_refl | apply kback_refl]. }
+    assert (GOOD : forall k, exists s' e, (do (s1, _) <- good c tried_bucket new_bucket bucket_pos network s k false now; Ok (s1, true)) = Ok (s', e) /\ Inv s' /\
+                     s_idcount s' = s_idcount s /\ s_coll s' = s_coll s /\ occ_mono s s' /\ kback s s').
+    { intros k. destruct (good_ok s k false now G LIM TP) as (s' & b & GD & I' & e1 & e2 & e3 & _).
+      destruct (good_frames s k false now s' b G LIM TP GD) as (O & KB).
+      rewrite GD. cbn [bind]. exists s', true. split; [reflexivity|]. auto 10. }
+    destruct (zfind idn (s_info s)) as [inew|] eqn:FN; [|exact SAME].
+    destruct (valid (a_key inew)); cbn [negb]; [|exact SAME].
+    destruct (CI _ eq_refl) as (o & FO). rewrite FO.
+    pose proof G as (HA & _). destruct (S_tried1 _ _ _ _ _ HA _ _ FO) as (iold & FI & _). rewrite FI.
+    destruct (now - a_last_success iold <? c_REPLACEMENT c); [exact SAME|].
+    destruct (now - a_last_try iold <? c_REPLACEMENT c).
+    - destruct (now - a_last_try iold >? 60); [apply GOOD | exact SAMEF].
+    - destruct (now - a_last_success inew >? c_TESTWIN c); [apply GOOD | exact SAMEF].
+  Qed.
+
+  Lemma coll_ok_remove l x : coll_ok c l -> coll_ok c (set_remove x l).
+  Proof. intros [A B]. split; [apply set_remove_sorted; auto|]. pose proof (set_remove_len x l). lia. Qed.
+
+  Lemma resolve_loop_ok ids s now :
+    Inv s -> s_idcount s <= IDLIM -> 0 < now ->
+    (forall id a, In id ids \/ In id (s_coll s) -> zfind id (s_info s) = Some a -> exists o, sfind (tslot (a_key a)) (s_tried s) = Some o) ->
+    exists s', resolve_loop c tried_bucket new_bucket bucket_pos valid network ids s now = Ok s' /\ Inv s' /\ CollInv s' /\
+      s_idcount s' = s_idcount s /\ (forall x, In x (s_coll s') -> In x (s_coll s)).
+  Proof.
+    revert s. induction ids as [|idn r IH]; intros s G LIM TP CI.
+    - exists s. split; [reflexivity|]. split; [auto|]. split; [intros id a I F; apply (CI id a); auto|]. auto.
+    - cbn [resolve_loop].
+      destruct (resolve_one_ok s idn now G LIM TP) as (s1 & e & RO & I1 & e1 & e2 & OM & KB).
+      { intros a F. apply (CI idn a); simpl; auto. }
+      rewrite RO. cbn [bind].
+      set (s1' := if e then set_coll (set_remove idn (s_coll s1)) s1 else s1).
+      assert (I1' : Inv s1').
+      { unfold s1'. destruct e; auto. apply G_coll; auto. apply coll_ok_remove. destruct I1 as (A1 & _). apply (S_coll _ _ _ _ _ A1). }
+      assert (SUB : forall x, In x (s_coll s1') -> In x (s_coll s)).
+      { unfold s1'. destruct e; simpl; rewrite <- e2; auto. intros x I. eapply set_remove_In; eauto. }
+      assert (EI : s_info s1' = s_info s1 /\ s_tried s1' = s_tried s1 /\ s_idcount s1' = s_idcount s1) by (unfold s1'; destruct e; auto).
+      destruct EI as (EI1 & EI2 & EI3).
+      destruct (IH s1' I1') as (s' & RL & I' & CI' & e3 & SUB').
+      + rewrite EI3, e1. auto.
+      + auto.
+      + intros id a I F. rewrite EI1 in F. rewrite EI2. destruct (KB _ _ F) as (a0 & F0 & K0).
+        assert (exists o, sfind (tslot (a_key a0)) (s_tried s) = Some o) as (o & FO).
+        { apply (CI id a0); auto. destruct I as [I|I]; [left; right; auto | right; auto]. }
+        rewrite <- K0. apply (OM _ _ FO).
+      + exists s'. split; [exact RL|]. split; [auto|]. split; [auto|]. split; [rewrite e3, EI3, e1; auto|]. auto.
+  Qed.
+
+  Lemma resolve_collisions_ok s now :
+    Inv s -> CollInv s -> s_idcount s <= IDLIM -> 0 < now ->
+    exists s', resolve_collisions c tried_bucket new_bucket bucket_pos valid network s now = Ok s' /\ Inv s' /\ CollInv s' /\ s_idcount s' = s_idcount s.
+  Proof.
+    intros G CI LIM TP. unfold resolve_collisions.
+    destruct (resolve_loop_ok (s_coll s) s now G LIM TP) as (s' & RL & I' & CI' & e & _).
+    { intros id a [I|I] F; apply (CI id a); auto. }
+    exists s'. auto.
+  Qed.
+
+  (* ---------- SelectTriedCollision_ ---------- *)
+  Lemma select_tried_collision_ok s draw :
+    Inv s -> CollInv s ->
+    exists s' r, select_tried_collision tried_bucket bucket_pos s draw = Ok (s', r) /\ Inv s' /\ CollInv s' /\ s_idcount s' = s_idcount s.
+  Proof.
+    intros G CI. unfold select_tried_collision.
+    destruct (s_coll s) as [|x l] eqn:EC; [exists s, None; auto|]. rewrite <- EC.
+    destruct (znth draw (s_coll s)) as [idn|] eqn:ZN; [|exists s, None; auto].
+    assert (IN : In idn (s_coll s)).
+    { unfold znth in ZN. destruct (draw <? 0); [discriminate|]. eapply nth_error_In; eauto. }
+    destruct (zfind idn (s_info s)) as [inew|] eqn:FN.
+    - destruct (CI _ _ IN FN) as (o & FO). rewrite FO.
+      pose proof G as (HA & _). destruct (S_tried1 _ _ _ _ _ HA _ _ FO) as (iold & FI & _). rewrite FI.
+      eexists s, _. split; [reflexivity|]. auto.
+    - eexists _, None. split; [reflexivity|]. split; [|split; [|reflexivity]].
+      + apply G_coll; auto. apply coll_ok_remove. destruct G as (A1 & _). apply (S_coll _ _ _ _ _ A1).
+      + intros id a I F. simpl in *. apply (CI id a); auto. eapply set_remove_In; eauto.
+  Qed.
+
+  (* ---------- GetAddr_ ---------- *)
+  Lemma getaddr_loop_ok fuel : forall n draws s nnodes net filtered now acc,
+    Inv s -> 0 <= n -> Z.of_nat fuel + n <= zlen (s_random s) ->
+    (forall i d, nth_error draws i = Some d -> 0 <= d < zlen (s_random s) - (n + Z.of_nat i)) ->
+    exists s' l, getaddr_loop c netclass fuel n draws s nnodes net filtered now acc = Ok (s', l) /\ Inv s' /\ same_fields s s' /\ kback s s'.
+  Proof.
+    induction fuel as [|fuel IH]; intros n draws s nnodes net filtered now acc G N0 FU DR.
+    - exists s, (rev acc). split; [reflexivity|]. split; [auto|]. split; [unfold same_fields; tauto | apply kback_refl].
+    - cbn [getaddr_loop].
+      destruct (zlen acc >=? nnodes); [exists s, (rev acc); split; [reflexivity|]; split; [auto|]; split; [unfold same_fields; tauto | apply kback_refl]|].
+      destruct draws as [|d draws']; [exists s, (rev acc); split; [reflexivity|]; split; [auto|]; split; [unfold same_fields; tauto | apply kback_refl]|].
+      pose proof (DR 0%nat d eq_refl) as D0. simpl in D0.
+      destruct (OPS swap_random_ok [] [] s n (d + n) G) as (s1 & SW & G1 & SF & LN & Z2 & Z1 & Z3 & FI & FN); [lia | lia |].
+      rewrite SW. cbn [bind].
+      assert (RG : 0 <= n < zlen (s_random s1)) by lia.
+      destruct (znth_range n _ RG) as (id & ZN). rewrite ZN.
+      destruct G1 as (A1 & R1 & C1 & X1). destruct (S_rand2 _ R1 _ _ ZN) as (a & F & _). rewrite F.
+      assert (I1 : Inv s1) by (split; [|split; [|split]]; auto).
+      assert (P1 : 0 <= n + 1) by lia.
+      assert (P2 : Z.of_nat fuel + (n + 1) <= zlen (s_random s1)) by lia.
+      assert (P3 : forall i d', nth_error draws' i = Some d' -> 0 <= d' < zlen (s_random s1) - (n + 1 + Z.of_nat i)).
+      { intros i d' Q. pose proof (DR (S i) d' Q) as Q2. lia. }
+      destruct (IH (n + 1) draws' s1 nnodes net filtered now
+                   (if (0 <=? net) && negb (netclass (a_key a) =? net) || is_terrible c now a && filtered then acc else a_key a :: acc)
+                   I1 P1 P2 P3) as (s' & l & GL & I' & SF' & KB').
+      clear IH.
+      assert (DONE : True) by exact I.
+      exists s', l. split; [exact GL|]. split; [auto|]. split.
+        * unfold same_fields in *. destruct SF as (f1 & f2 & f3 & f4 & f5 & f6 & f7 & f8 & f9).
+          destruct SF' as (g1 & g2 & g3 & g4 & g5 & g6 & g7 & g8 & g9). repeat split; congruence.
+        * apply (kback_trans s s1 s'); auto. intros id0 a' Q.
+          destruct (zfind id0 (s_info s)) as [a0|] eqn:F0; [|rewrite (FN _ F0) in Q; discriminate].
+          exists a0. split; auto. destruct (FI _ _ F0) as (r & Q2). rewrite Q in Q2. injection Q2 as ->. reflexivity.
+  Qed.
+
+  Definition draws_ok (len : Z) (draws : list Z) : Prop := forall i d, nth_error draws i = Some d -> 0 <= d < len - Z.of_nat i.
+
+  Lemma getaddr_ok s maxa pct net filtered now draws :
+    Inv s -> draws_ok (zlen (s_random s)) draws ->
+    exists s' l, getaddr c netclass s maxa pct net filtered now draws = Ok (s', l) /\ Inv s' /\ same_fields s s' /\ kback s s'.
+  Proof.
+    intros G DR. unfold getaddr.
+    apply getaddr_loop_ok; [exact G | lia | unfold zlen; lia | intros i d Q; specialize (DR i d Q); lia].
   Qed.
 End Steps.
